@@ -90,6 +90,11 @@ func pairCase(c map[string]interface{}) map[string]interface{} {
 		for k, v := range grpcOps(iters) {
 			ops[k] = v
 		}
+		if len(Str(c, "a")) > 13 && Str(c, "a")[:13] == "PolicyManager" {
+			for k, v := range policyOps() {
+				ops[k] = v
+			}
+		}
 		a := ops[Str(c, "a")]
 		var bs []func(int)
 		if l, ok := c["b"].([]interface{}); ok {
